@@ -504,3 +504,23 @@ func (in *Interp) Run(st State) (tr *Trace) {
 		}
 	}
 }
+
+// OverrideState pins some vars (epoch-independent) on top of a base state.
+type OverrideState struct {
+	Base State
+	Vars map[string]int
+}
+
+// Flag implements State.
+func (s *OverrideState) Flag(e int, n string) bool { return s.Base.Flag(e, n) }
+
+// Trainer implements State.
+func (s *OverrideState) Trainer(e int, n string) bool { return s.Base.Trainer(e, n) }
+
+// Var implements State.
+func (s *OverrideState) Var(e int, n string) int {
+	if v, ok := s.Vars[n]; ok {
+		return v
+	}
+	return s.Base.Var(e, n)
+}
